@@ -191,6 +191,11 @@ public:
   void setOnError(ErrorCallback cb) { _onError = std::move(cb); }
   void setOnStateChange(StateCallback cb) { _onStateChange = std::move(cb); }
 
+  /// \brief Largest frame payload AND largest reassembled message the client
+  /// accepts (same meaning as WebSocketServer::setMaxFrameSize; default 16 MiB).
+  /// Anything larger fails the connection with close code 1009.
+  void setMaxFrameSize(std::size_t maxBytes) { _maxFrameSize.store(maxBytes); }
+
   // ── Connect / Disconnect ───────────────────────────────────────────────
 
   /// \brief Connect to a WebSocket server. Blocks until the handshake completes
@@ -823,7 +828,7 @@ private:
                             localBuffer.size() - offset);
       std::size_t consumed = 0;
       WsParseStatus status = WsParseStatus::Ok;
-      auto frame = WebSocketFrame::parse(view, consumed, status, kMaxFramePayload);
+      auto frame = WebSocketFrame::parse(view, consumed, status, _maxFrameSize.load());
       if (!frame)
       {
         if (status == WsParseStatus::ProtocolError || status == WsParseStatus::TooLarge)
@@ -843,6 +848,10 @@ private:
 
       // handleFrame fires callbacks — must be outside lock
       handleFrame(*frame);
+      if (_protocolFailed.load())
+      {
+        return; // handleFrame failed the connection (message too big): discard the rest
+      }
     }
 
     // Step 4: Put unconsumed remainder back under lock
@@ -918,6 +927,7 @@ private:
     WsOpcode opcode = WsOpcode::CONTINUATION;
     std::vector<std::uint8_t> payload;
     bool deliver = false;
+    bool tooLarge = false;
     {
       std::lock_guard<std::mutex> lock(_dataMutex);
       if (isStart)
@@ -931,7 +941,15 @@ private:
                                frame.payload.begin(), frame.payload.end());
       }
 
-      if (frame.fin)
+      if (_fragmentBuffer.size() > _maxFrameSize.load())
+      {
+        // Message-level limit (the frame-level limit alone lets a peer grow the
+        // reassembly buffer without bound with non-final fragments).
+        tooLarge = true;
+        _fragmentBuffer.clear();
+        _fragmentOpcode = WsOpcode::CONTINUATION;
+      }
+      else if (frame.fin)
       {
         opcode = _fragmentOpcode;
         payload = std::move(_fragmentBuffer);
@@ -939,6 +957,16 @@ private:
         _fragmentOpcode = WsOpcode::CONTINUATION;
         deliver = true;
       }
+    }
+
+    if (tooLarge)
+    {
+      // Fail the connection exactly like the frame-level TooLarge path in handleData.
+      _protocolFailed.store(true);
+      sendClose(1009, "Message Too Big");
+      setState(WebSocketState::CLOSED);
+      if (_onError) _onError("Message exceeded size limit");
+      return;
     }
 
     if (deliver)
@@ -1263,6 +1291,8 @@ private:
   // Set when an inbound frame header was a protocol error / over the size limit:
   // the connection has been failed and further input is discarded. Reset per connection.
   std::atomic<bool> _protocolFailed{false};
+  // Limit for one frame payload and for one reassembled message (setMaxFrameSize).
+  std::atomic<std::uint64_t> _maxFrameSize{kMaxFramePayload};
   // Serialises "check _closeSent + hand a frame to the transport" (see sendText).
   std::mutex _sendMutex;
   bool _closeSent{false}; // _sendMutex; a CLOSE frame was sent on this connection
